@@ -8,8 +8,11 @@ from .core import Sym, zint
 def lcm_sym(I, a, b):
     """np.lcm on symbolic positive ints: L with a | L, b | L, L > 0 and minimality as an instantiation schema"""
     a_, b_ = zint(a), zint(b)
-    L = z3.Int(core.fresh_name("lcm"))
-    ka, kb = z3.Int(core.fresh_name("lcm_ka")), z3.Int(core.fresh_name("lcm_kb"))
+    # lcm is a FUNCTION of its arguments: two calls with equal arguments give the same value
+    F = z3.Function("tp_lcm", z3.IntSort(), z3.IntSort(), z3.IntSort())
+    Ka = z3.Function("tp_lcm_ka", z3.IntSort(), z3.IntSort(), z3.IntSort())
+    Kb = z3.Function("tp_lcm_kb", z3.IntSort(), z3.IntSort(), z3.IntSort())
+    L, ka, kb = F(a_, b_), Ka(a_, b_), Kb(a_, b_)
     I.ctx.assume(z3.Implies(z3.And(a_ > 0, b_ > 0), z3.And(L > 0, L == a_ * ka, L == b_ * kb, ka > 0, kb > 0, L <= a_ * b_)))
     I.ctx.ghost.setdefault("lcm", []).append((L, a_, b_, ka, kb))
     return Sym(L, "int")
